@@ -18,6 +18,7 @@ import (
 	"time"
 
 	"github.com/ipfs/go-cid"
+	"github.com/ipni/go-libipni/announce"
 	"github.com/ipni/go-libipni/announce/httpsender"
 	"github.com/ipni/go-libipni/announce/message"
 	"github.com/ipni/go-libipni/announce/p2psender"
@@ -254,7 +255,7 @@ func hdr(maj byte, n uint64) []byte {
 
 func TestCheck(t *testing.T) {
 	r := vp.New("C10", "exploration",
-		"messages: {CIDv0, CIDv1 x 3 codecs x 3 hash functions} x {every list of 0..3 addresses over a 5-symbol alphabet incl. unknown-protocol, empty and 300-byte strings} x {extra data nil/empty/1/24/256 bytes} x {orig peer absent/present}, CBOR and JSON round trips, the CBOR decoder also fed through readers that deliver one byte / half / 7 bytes per Read or the error together with the last data; HTTP sender (CBOR and JSON) and pubsub sender for every address list of <=3 over {3 valid, 1 unknown-protocol}, the HTTP sender also with extra data whose only, first or last byte is each of the 256 byte values (lists of <=1 address), with an original-peer field and with extra data carried by the message instead of the sender option, one message value sent through a sender with extra data of its own and then through a plain one, and one sender used for sequences of JSON and CBOR announcements (the declared content type is checked on every request), and the pubsub sender that makes its own topic from a host and a topic name, with and without extra data of its own and of the message, read by a second host joined to the topic; CBOR decoder: for each corpus encoding every single-byte substitution, every truncation, every CBOR header token at every offset (replacing 0 or 1 byte) singly and a reduced token set in adjacent pairs, lengths at and just above each cap, all byte strings of length <=2; after every rejected input the worker decodes a fixed valid message and compares it. Non-trivial: messages with at least one address or extra data; decoder inputs other than the corpus.",
+		"messages: {CIDv0, CIDv1 x 3 codecs x 3 hash functions} x {every list of 0..3 addresses over a 5-symbol alphabet incl. unknown-protocol, empty and 300-byte strings} x {extra data nil/empty/1/24/256 bytes} x {orig peer absent/present}, CBOR and JSON round trips, the CBOR decoder also fed through readers that deliver one byte / half / 7 bytes per Read or the error together with the last data; HTTP sender (CBOR and JSON) and pubsub sender for every address list of <=3 over {3 valid, 1 unknown-protocol}, the HTTP sender also with extra data whose only, first or last byte is each of the 256 byte values (lists of <=1 address), with an original-peer field and with extra data carried by the message instead of the sender option, one message value sent through a sender with extra data of its own and then through a plain one, and one sender used for sequences of JSON and CBOR announcements (the declared content type is checked on every request), and the pubsub sender that makes its own topic from a host and a topic name, with and without extra data of its own and of the message, read by a second host joined to the topic, and the receiver's own republications of bursts of 2..4 direct announcements (WithResend), read from a second subscription after all were sent; CBOR decoder: for each corpus encoding every single-byte substitution, every truncation, every CBOR header token at every offset (replacing 0 or 1 byte) singly and a reduced token set in adjacent pairs, lengths at and just above each cap, all byte strings of length <=2; after every rejected input the worker decodes a fixed valid message and compares it. Non-trivial: messages with at least one address or extra data; decoder inputs other than the corpus.",
 		"equality treats nil and empty byte fields alike",
 		"allocation bound: input length + 2 x ByteArrayMaxLen + 256 KiB",
 		"decoder inputs run in a worker subprocess with a 6 GiB address-space limit",
@@ -900,6 +901,7 @@ func checkSenders(r *vp.Recorder) {
 	}
 
 	ownTopicSender(r, pub, c)
+	receiverRepublications(r, pub)
 
 	// pubsub sender on a single-host topic
 	key := "p2psend"
@@ -1009,6 +1011,90 @@ func checkSenders(r *vp.Recorder) {
 		r.Outcome("p2psend-burst-ok")
 	}
 	var _ peer.ID
+}
+
+// receiverRepublications: the receiver is a sender too: with WithResend(true)
+// every direct announcement goes out on its topic. Bursts of 2..4 direct
+// announcements (each taken out with Next before the following one), and only
+// then are the messages read from a second subscription on the topic: each is
+// the announcement it was sent for (CID, addresses, original publisher), also
+// after later ones have been sent.
+func receiverRepublications(r *vp.Recorder, pub *fixture.Identity) {
+	for burst := 2; burst <= 4; burst++ {
+		key := fmt.Sprintf("receiver-republications|burst%d", burst)
+		if !r.Mine(key) {
+			continue
+		}
+		r.Eval(key, true)
+		func() {
+			h, err := libp2p.New(libp2p.NoListenAddrs)
+			if err != nil {
+				r.Note("republications: host unavailable: %v", err)
+				return
+			}
+			defer h.Close()
+			ctx, cancel := context.WithTimeout(context.Background(), 40*time.Second)
+			defer cancel()
+			ps, err := pubsub.NewGossipSub(ctx, h)
+			if err != nil {
+				r.Note("republications: gossipsub unavailable: %v", err)
+				return
+			}
+			topic, err := ps.Join("/indexer/ingest/verif-resend")
+			if err != nil {
+				r.Note("republications: join: %v", err)
+				return
+			}
+			sub, err := topic.Subscribe()
+			if err != nil {
+				r.Note("republications: subscribe: %v", err)
+				return
+			}
+			rc, err := announce.NewReceiver(h, "", announce.WithTopic(topic), announce.WithResend(true), announce.WithAllowPeer(func(peer.ID) bool { return true }))
+			if err != nil {
+				r.Violation("receiver-republications:new-error", key, err.Error(), nil)
+				return
+			}
+			defer rc.Close()
+			all := cids()
+			var want []message.Message
+			for i := 0; i < burst; i++ {
+				c := all[(i+2)%len(all)]
+				var addrs []multiaddr.Multiaddr
+				for j := 0; j <= i%3; j++ {
+					addrs = append(addrs, multiaddr.StringCast(fmt.Sprintf("/ip4/203.0.113.%d/tcp/%d/http", i+1, 3000+j)))
+				}
+				if err := rc.Direct(ctx, c, peer.AddrInfo{ID: pub.ID, Addrs: addrs}); err != nil {
+					r.Violation("receiver-republications:direct-error", key, err.Error(), nil)
+					return
+				}
+				if _, err := rc.Next(ctx); err != nil {
+					r.Violation("receiver-republications:next-error", key, err.Error(), nil)
+					return
+				}
+				m := message.Message{Cid: c, OrigPeer: pub.ID.String()}
+				m.SetAddrs(addrs)
+				want = append(want, m)
+			}
+			for i := 0; i < burst; i++ {
+				pm, err := sub.Next(ctx)
+				if err != nil {
+					r.Note("republications: delivery to the second subscription failed: %v", err)
+					return
+				}
+				var got message.Message
+				if err := got.UnmarshalCBOR(bytes.NewReader(pm.Data)); err != nil {
+					r.Violation("receiver-republications:receiver-cannot-decode", key, fmt.Sprintf("republication %d of %d: %v", i, burst, err), nil)
+					return
+				}
+				if ok, why := msgEqual(&want[i], &got); !ok {
+					r.Violation("receiver-republications:wire-differs:"+why, key, fmt.Sprintf("republication %d of %d direct announcements, read after all were sent, differs from the announcement it was sent for in %s: got CID %s, announced %s", i, burst, why, got.Cid, want[i].Cid), nil)
+					return
+				}
+			}
+			r.Outcome("receiver-republications-ok")
+		}()
+	}
 }
 
 // ownTopicSender: the pubsub sender that makes its own topic from a host and a
